@@ -79,6 +79,27 @@ pub fn run(ctx: &Ctx) -> i32 {
         f.tail = vec![1, 2, 3, 4, 5];
         add("b1-trailing".into(), &f);
     }
+    // frames without chunks: a bare 16-byte frame header as the last thing in the file
+    {
+        let mut f = gen::b1();
+        f.frames.push(Frame::new(77));
+        add("b1-empty-last-frame".into(), &f);
+        let mut f = gen::b3();
+        f.frames.insert(1, Frame::new(5));
+        f.frames.push(Frame::new(6));
+        f.frames.push(Frame::new(7));
+        add("b3-empty-frames".into(), &f);
+        let f = gen::file(1, 1, &Fmt::Rgba, &[10]);
+        add("one-empty-frame".into(), &f);
+        for style in [CountStyle::OldOnly, CountStyle::Both] {
+            let mut f = gen::file(2, 2, &Fmt::Gray, &[10, 20, 30]);
+            f.frames[0].push(Body::Layer(Layer::image("l")));
+            for fr in f.frames.iter_mut() {
+                fr.count_style = style;
+            }
+            add(format!("three-frames-last-two-empty-{:?}", style), &f);
+        }
+    }
     // a file whose chunks are all larger than 64 KiB (quick: structured offsets only, see below)
     add("big".into(), &gen::big());
     // corpus
